@@ -208,3 +208,21 @@ package core
 //@
 //@ func (*pipeIDAllocator).Get
 //@   before return#1 assert ((p.next + 4294967295) % 4294967296) % 2147483648 == id
+//@
+//@ func (*socket).remPipe
+//@   before call:RemovePipe#1 assert arg0 == p && !held(s.Mutex)
+//@   before call:Remove#1 assert arg0 == p && ph == at("call:Unlock#1", s.pipehook)
+//@   ensures called("RemovePipe") && called("Remove") && spawned("remPipe$1")
+//@
+//@ func (*socket).remPipe$1
+//@   before call:Free#1 assert arg0 == p.id
+//@   ensures called("Free")
+//@
+//@ func (*pipeList).Add
+//@   before call:Unlock#1 assert has(l.pipes, p.id) && l.pipes[p.id] == p
+//@
+//@ func (*pipeList).Remove
+//@   before call:Unlock#1 assert !has(l.pipes, p.id)
+//@
+//@ func (*pipeIDAllocator).Free
+//@   before call:Unlock#1 assert !has(p.used, id)
